@@ -35,6 +35,9 @@ func (ti *TypeInfo) structName(named types.Type, st *types.Struct) string {
 		return n
 	}
 	n := ""
+	if named != nil {
+		named = types.Unalias(named) // type ReadUserTupleFilter = ReadFilter names the same struct
+	}
 	if nt, ok := named.(*types.Named); ok {
 		n = nt.Obj().Name()
 		if nt.Obj().Pkg() != nil {
